@@ -145,6 +145,15 @@ def run_property(spec, tier, seed, extract=None):
         log(f"[{pid}] engine {es.name}: {len(hs)} histories impl {tm-ti:.1f}s model {time.time()-tm:.1f}s")
         for h, io, mo in zip(hs, impl, model):
             evaluations += 1
+            # model-only annotations (` ##m key=value ...` at the end of a model line): whether the hypotheses of a theorem
+            # hold of the state the model is in.  They are counted into the evidence and removed before the comparison.
+            if mo is not None:
+                for j, line in enumerate(mo):
+                    if line and " ##m " in line:
+                        base, _, ann = line.partition(" ##m ")
+                        mo[j] = base
+                        for tok in ann.split():
+                            tag_hist["model:" + tok] = tag_hist.get("model:" + tok, 0) + 1
             for o in h.ops:
                 k = o.split(" ")[0]
                 op_hist[k] = op_hist.get(k, 0) + 1
